@@ -45,6 +45,14 @@ type SOp struct {
 	Start int64    `json:"start"`
 	Auto  bool     `json:"auto"`
 	Frame []KV     `json:"frame"`
+	// Fault on a write: the data-file Write of channel K is a short write (see Fault).
+	Fault *WFault `json:"fault,omitempty"`
+}
+
+// WFault scripts a short write: channel key and the seed that fixes how many bytes get stored.
+type WFault struct {
+	K uint32 `json:"k"`
+	J int64  `json:"j"`
 }
 
 type Setup struct {
@@ -340,7 +348,11 @@ func (e *Env) Step(o SOp) (r SRes) {
 			keys = append(keys, kv.K)
 			series = append(series, Encode(c.DT, kv.V))
 		}
+		if o.Fault != nil {
+			e.Fault.ArmShortWrite(o.Fault.K, o.Fault.J)
+		}
 		_, err := e.W.Write(telem.MultiFrame(keys, series))
+		e.Fault.Disarm()
 		if err != nil {
 			e.W = nil
 		}
